@@ -1,4 +1,5 @@
 import NTV.Proofs.Lemmas.PrimeStream
+import NTV.Proofs.Lemmas.PrimeWitness
 /-! # C13 — the primality test never rejects a prime (one-sided error), for every history of draws.
 `isPrime n s` is the model of `prime::is_prime` reading its random bases from the stream `s` of raw
 RNG chunks (`none` = the stream ran out before the test finished). -/
@@ -59,6 +60,12 @@ theorem prime_passes_all_bases (n : Nat) (hn : n.Prime) (bases : List Nat)
 
 /-- `modpow` as used by the rounds is modular exponentiation -/
 theorem modpow_spec (b e n : Nat) (hn : 0 < n) : powMod b e n = b ^ e % n := powMod_eq b e n hn
+
+/-- composites are really rejected by some base: every proper prime divisor q of n > 2 is a base in
+[1, n) whose round fails (so the one-sidedness theorem is not vacuous and the error is one-sided only) -/
+theorem composite_has_witness (n q : Nat) (hn : 2 < n) (hq : q.Prime) (hqn : q ∣ n) (hlt : q < n) :
+    1 ≤ q ∧ q < n ∧ mrRound n (splitTwos n (n - 1) 0).1 (splitTwos n (n - 1) 0).2 q = false :=
+  witness_exists n q hn hq hqn hlt
 
 /-- non-vacuity: 7 is prime, so the theorem applies -/
 example : (7 : Nat).Prime := by norm_num
